@@ -44,6 +44,9 @@ bool entry(const cctz::time_point<D>& tp, const cctz::time_zone& tz, const std::
   std::string s = cctz::format(fmt, tp, tz);
   cctz::time_point<D> out;
   bool ok = cctz::parse(fmt, s, tz, &out);
+  cctz::time_zone::civil_transition trans;
+  ok &= tz.next_transition(tp, &trans);
+  ok &= tz.prev_transition(tp, &trans);
   return ok && al.cs == cs;
 }
 
